@@ -13,7 +13,7 @@ pub fn prop() -> HistProp {
         max_ops: 40,
         max_prepop: 8,
         cases_quick: 3000,
-        cases_thorough: 40_000,
+        cases_thorough: 200_000,
         nontrivial: |s, _| s.executed >= 6 && s.fail_on_nonempty >= 1 && s.removed_created_earlier >= 1 && s.wrong_typed >= 1,
         rule: "histories vec(op,0..=40) in the typed profile x name pool x depth x backend stack (grammar Mem|Phys|Altroot(x,depth 0..3)|Overlay[1..4 x], nesting<=2 plus pre-populated layers); non-trivial = >=6 executed ops with >=1 expected failure on a non-empty tree, >=1 removal of an entry created earlier in the case and >=1 wrong-typed call; distinct by hash of the generated case",
         floors: vec![("distinct_nontrivial", 20), ("cfg:mem", 5), ("cfg:phys", 5), ("cfg:altroot", 5), ("cfg:overlay", 5), ("wrong_typed_calls", 100), ("expected_failures", 300)],
